@@ -5,7 +5,9 @@ use std::{
 };
 
 use clap::Parser;
-use emmylua_formatter::{check_text, cmd_args, collect_lua_files, default_config_toml};
+use emmylua_formatter::{
+    check_text, cmd_args, collect_lua_files, default_config_toml, write_file_atomic,
+};
 use similar::{ChangeTag, TextDiff};
 
 #[derive(Clone, Copy)]
@@ -332,7 +334,7 @@ fn main() {
                         }
                     }
                 } else if args.write {
-                    if changed && let Err(e) = fs::write(path, formatted) {
+                    if changed && let Err(e) = write_file_atomic(path, formatted.as_bytes()) {
                         eprintln!("Failed to write {}: {e}", path.to_string_lossy());
                         exit_code = 2;
                     }
